@@ -146,8 +146,26 @@ func (eng *Engine) immutableGlobal(v *types.Var) bool {
 		return false
 	}
 	p, ok := eng.pkgs[v.Pkg().Path()]
+	if !ok && eng.isRepoPkg(v.Pkg().Path()) {
+		// a package variable of an imported repository package: load that package to analyse it
+		rel := strings.TrimPrefix(strings.TrimPrefix(v.Pkg().Path(), repoMod), "/")
+		if rel == "" {
+			rel = "."
+		}
+		if err := eng.load(rel); err == nil {
+			p, ok = eng.pkgs[v.Pkg().Path()]
+		}
+	}
 	if !ok {
 		return false
+	}
+	// the importer sees a different *types.Var object than the package's own type-check: go by name
+	if own, isVar := p.Types.Scope().Lookup(v.Name()).(*types.Var); isVar && own != v {
+		r := eng.immutableGlobal(own)
+		if init, has := eng.inits[own]; has {
+			eng.inits[v] = init
+		}
+		return r
 	}
 	m, ok := eng.assigned[p.PkgPath]
 	if !ok {
